@@ -15,6 +15,50 @@ CHECKS = {
         text="Same engine as C04 with the C12 clauses of the contract action: first-fit offset, grow only when nothing fits, capacity monotone, free never raises and yields exactly the coalesced free set, "
              "get_free equals the free bytes, every request terminates (liveness under weak fairness on the model; exception = violation on the code).",
         note="trusted: TLC, harness bookkeeping; growth amount is unspecified by the contract and bound from the trace"),
+    "C01": dict(
+        engine="heap", category="model_checking", design_ref="2 / C01",
+        technique='TLA+ abstract heap (XoHeap.tla) + format operators (XoLayout.tla); TLC trace validation (XoHeapTrace.tla) of recorded real executions with Decode/WF evaluated by TLC on the real buffer bytes',
+        text='Construct/Get of the abstract heap: every constructed object (all input forms: nested python data, ndarrays of any layout, xobjects, string capacities; all placements on poisoned, previously used buffers of both CPU kinds) is read back through the constructor handle, to_nplike/to_nparray and every view; TLC compares each read with the abstract value of the specification and, independently, with Decode of the real bytes, so a wrong read and a wrong write cannot cancel. A constructor refusing a documented input form is a violation.',
+        note="trusted: TLC; the harness's recording of byte diffs, allocate/free logs and accessor read-backs (vlib/world.py); NumPy/UTF-8 encodings (values compared as byte strings); histories are generated pseudo-randomly plus a systematic sweep of axis orders (not exhaustive); 64-bit words decoded within +-2^23"),
+    "C03": dict(
+        engine="heap", category="model_checking", design_ref="2 / C03",
+        technique='TLA+ abstract heap (XoHeap.tla) + format operators (XoLayout.tla); TLC trace validation (XoHeapTrace.tla) of recorded real executions with Decode/WF evaluated by TLC on the real buffer bytes',
+        text="Frame condition of every writing action checked by TLC on exact byte diffs: construction and fitting assignments change only bytes inside the object's reserved extent and the extents allocated for new referents; reported size = stored size = allocated size; parts nested in parents, siblings disjoint (nest: clauses of XoLayout!WF).",
+        note="trusted: TLC; the harness's recording of byte diffs, allocate/free logs and accessor read-backs (vlib/world.py); NumPy/UTF-8 encodings (values compared as byte strings); histories are generated pseudo-randomly plus a systematic sweep of axis orders (not exhaustive); 64-bit words decoded within +-2^23"),
+    "C05": dict(
+        engine="heap", category="model_checking", design_ref="2 / C05",
+        technique='TLA+ abstract heap (XoHeap.tla) + format operators (XoLayout.tla); TLC trace validation (XoHeapTrace.tla) of recorded real executions with Decode/WF evaluated by TLC on the real buffer bytes',
+        text='XoLayout.tla is a decoder written from the documentation only; TLC runs WF and Decode on the real bytes of every constructed object and requires the decoded value to equal the value written (slot alignment of every part, stored strides, memory-order item-offset table, NUL-terminated size-prefixed strings, relative references, null pattern, union member index).',
+        note="trusted: TLC; the harness's recording of byte diffs, allocate/free logs and accessor read-backs (vlib/world.py); NumPy/UTF-8 encodings (values compared as byte strings); histories are generated pseudo-randomly plus a systematic sweep of axis orders (not exhaustive); 64-bit words decoded within +-2^23"),
+    "C06": dict(
+        engine="heap", category="model_checking", design_ref="2 / C06",
+        technique='TLA+ abstract heap (XoHeap.tla) + format operators (XoLayout.tla); TLC trace validation (XoHeapTrace.tla) of recorded real executions with Decode/WF evaluated by TLC on the real buffer bytes',
+        text='Every heap object is re-read after every step through a fresh _from_buffer view, through its parent (field/item/reference access from the root) and through the constructor handle; TLC requires all of them to equal the abstract value and to report the same size and strides; assignments go through randomly chosen routes and are then read through all the others.',
+        note="trusted: TLC; the harness's recording of byte diffs, allocate/free logs and accessor read-backs (vlib/world.py); NumPy/UTF-8 encodings (values compared as byte strings); histories are generated pseudo-randomly plus a systematic sweep of axis orders (not exhaustive); 64-bit words decoded within +-2^23"),
+    "C08": dict(
+        engine="heap", category="model_checking", design_ref="2 / C08",
+        technique='TLA+ abstract heap (XoHeap.tla) + format operators (XoLayout.tla); TLC trace validation (XoHeapTrace.tla) of recorded real executions with Decode/WF evaluated by TLC on the real buffer bytes',
+        text="Reference graph of the abstract heap: bind to an existing same-buffer object = identity (the reference word must point at that very address), bind to plain data / to a foreign-buffer object = a fresh object (fresh allocation of exactly the referent's size, value equal), None = reserved null pattern and member index -1; invariant RefsResolve (every non-null reference denotes a live object of the recorded member type in the holder's buffer) after every step including growth; writes through the reference and through the original are both read back through both.",
+        note="trusted: TLC; the harness's recording of byte diffs, allocate/free logs and accessor read-backs (vlib/world.py); NumPy/UTF-8 encodings (values compared as byte strings); histories are generated pseudo-randomly plus a systematic sweep of axis orders (not exhaustive); 64-bit words decoded within +-2^23"),
+    "C09": dict(
+        engine="heap", category="model_checking", design_ref="2 / C09",
+        technique='TLA+ abstract heap (XoHeap.tla) + format operators (XoLayout.tla); TLC trace validation (XoHeapTrace.tla) of recorded real executions with Decode/WF evaluated by TLC on the real buffer bytes',
+        text="Copy action of the abstract heap (AsCopyInput): copies into the same buffer, another buffer and another context must decode to the source's value with references kept (same buffer) or duplicated into fresh allocations of the copy's buffer (other buffer), extents disjoint; later assignments on either side are checked against the abstract values of both.",
+        note="trusted: TLC; the harness's recording of byte diffs, allocate/free logs and accessor read-backs (vlib/world.py); NumPy/UTF-8 encodings (values compared as byte strings); histories are generated pseudo-randomly plus a systematic sweep of axis orders (not exhaustive); 64-bit words decoded within +-2^23"),
+    "C10": dict(
+        engine="heap", category="model_checking", design_ref="2 / C10",
+        technique='TLA+ abstract heap (XoHeap.tla) + format operators (XoLayout.tla); TLC trace validation (XoHeapTrace.tla) of recorded real executions with Decode/WF evaluated by TLC on the real buffer bytes',
+        text="Set action of the abstract heap (SetAt): after every fitting assignment (leaf, whole nested array/struct of equal size given as python data, ndarray or xobject, through any route, interleaved with growth) TLC requires the element to decode to the assigned value, every other element and object to keep its value, every stored size/shape (Skel) to be unchanged, bytes changed only inside the element's extent.",
+        note="trusted: TLC; the harness's recording of byte diffs, allocate/free logs and accessor read-backs (vlib/world.py); NumPy/UTF-8 encodings (values compared as byte strings); histories are generated pseudo-randomly plus a systematic sweep of axis orders (not exhaustive); 64-bit words decoded within +-2^23"),
+    "C11": dict(
+        engine="heap", category="model_checking", design_ref="2 / C11",
+        technique='TLA+ abstract heap (XoHeap.tla) + format operators (XoLayout.tla); TLC trace validation (XoHeapTrace.tla) of recorded real executions with Decode/WF evaluated by TLC on the real buffer bytes',
+        text="ErrOp: for every misuse class of the statement (index beyond / negative, update of other length or shape, text longer than the string's box, nested item needing more room, non-member for a union, buffer of another context, offset without buffer) the real call must raise and TLC requires every existing object to still decode to its abstract value.",
+        note="trusted: TLC; the harness's recording of byte diffs, allocate/free logs and accessor read-backs (vlib/world.py); NumPy/UTF-8 encodings (values compared as byte strings); histories are generated pseudo-randomly plus a systematic sweep of axis orders (not exhaustive); 64-bit words decoded within +-2^23"),
 }
+
+# registry.d/<ID>.json entries (written by engine authors) are claimed only once the coordinator has seen the check
+# quiet on the unchanged tree and firing on a seeded defect
+READY_D = {"C14"}
 
 NOT_YET = {}
